@@ -81,4 +81,83 @@ theorem cookieSafe_filter (v : Str) (h : cookieSafe v = true) : v.filter validCo
   simp only [Bool.and_eq_true] at this
   exact this.1.1
 
+/-- the cookie of a server whose key has left the pool finds nothing -/
+theorem findByURL_gone (urls : List URL) (s : URL) (hrt : RoundTrip s) (hgone : ∀ u ∈ urls, u.key ≠ s.key) :
+    findByURL (render s) urls = none := by
+  unfold RoundTrip at hrt
+  unfold findByURL
+  cases hp : parse (render s) with
+  | none => rfl
+  | some p =>
+    rw [hp] at hrt
+    simp only [Option.map_some, Option.some.injEq] at hrt
+    simp only
+    rw [List.find?_eq_none]
+    intro u hu hpu
+    exact hgone u hu (((sameKey_iff p u).mp hpu).symm.trans hrt)
+
+/-! a string without `:` never parses to a URL with a scheme -/
+
+theorem getSchemeGo_no_colon (raw : Str) : ∀ (rest acc : Str), ':' ∉ rest → getSchemeGo raw rest acc = some ([], raw)
+  | [], _, _ => rfl
+  | c :: t, acc, h => by
+    have hc : c ≠ ':' := fun e => h (by simp [e])
+    have ht : ':' ∉ t := fun m => h (by simp [m])
+    unfold getSchemeGo
+    split
+    · exact getSchemeGo_no_colon raw t _ ht
+    · split
+      · split
+        · rfl
+        · exact getSchemeGo_no_colon raw t _ ht
+      · simp [hc]
+
+theorem setPath_scheme (u p : URL) (r : Str) (h : setPath u r = some p) : p.scheme = u.scheme := by
+  unfold setPath at h
+  split at h
+  · cases h
+  · cases h; rfl
+
+theorem parseNoFrag_scheme_nil (w : Str) (p : URL) (hc : ':' ∉ w) (hp : parseNoFrag w = some p) : p.scheme = [] := by
+  unfold parseNoFrag at hp
+  rw [show getScheme w = some ([], w) from getSchemeGo_no_colon w w [] hc] at hp
+  simp only [List.map_nil] at hp
+  repeat' split at hp
+  all_goals first | (cases hp; rfl) | cases hp | exact setPath_scheme _ _ _ hp
+
+theorem parse_scheme_nil (v : Str) (p : URL) (hc : ':' ∉ v) (hp : parse v = some p) : p.scheme = [] := by
+  unfold parse at hp
+  simp only at hp
+  have hc1 : ':' ∉ (cut '#' v).1 := by
+    unfold cut
+    split
+    · exact hc
+    · exact fun m => hc ((List.takeWhile_sublist _).subset m)
+  cases hn : parseNoFrag (cut '#' v).1 with
+  | none => rw [hn] at hp; cases hp
+  | some q =>
+    rw [hn] at hp
+    have hq := parseNoFrag_scheme_nil _ q hc1 hn
+    simp only at hp
+    split at hp
+    · cases hp; exact hq
+    · unfold setFragment at hp
+      split at hp
+      · cases hp
+      · cases hp; exact hq
+
+/-- `RawValue.FindURL` never claims a value without `:` (a hash, a base64 string) when every member has a scheme -/
+theorem findByURL_no_colon (v : Str) (urls : List URL) (hc : ':' ∉ v) (hs : ∀ u ∈ urls, u.scheme ≠ []) :
+    findByURL v urls = none := by
+  unfold findByURL
+  cases hp : parse v with
+  | none => rfl
+  | some p =>
+    simp only
+    rw [List.find?_eq_none]
+    intro u hu hpu
+    have := ((sameKey_iff p u).mp hpu)
+    simp only [URL.key, Prod.mk.injEq] at this
+    exact hs u hu (this.1 ▸ parse_scheme_nil v p hc hp)
+
 end Sticky
